@@ -8,7 +8,7 @@ def run_sched(ctx, which, count, seed):
     out = os.path.join(ctx.work, "sched_%s_%d.jsonl" % (which, seed))
     rc, o = vlib.harness(["sched", "-seed", seed, "-count", count, "-out", out, which], timeout=1800)
     if rc != 0:
-        raise RuntimeError("harness sched failed (a hang or crash under a forced schedule is itself a finding): " + o[-400:])
+        raise RuntimeError("harness sched failed (a hang or crash under a forced schedule is itself a finding): " + o[:700] + " ... " + o[-500:])
     rs = vlib.read_jsonl(out)
     for r in rs:
         r["seed"] = seed
